@@ -1,7 +1,7 @@
 ---- MODULE FuncSignalMC ----
 EXTENDS FuncSignal
 GridsSmall == {<<0, 2, 4, 6>>, <<2, 4>>}
-GridsSim   == {<<0, 2, 4, 6>>, <<2, 4>>, <<0, 1, 2, 3, 4>>, <<-4, 0, 4, 8>>, <<-3, -1, 1, 3, 5, 7>>, <<1000000, 1000002, 1000004>>}
+GridsSim   == {<<0, 2, 4, 6>>, <<2, 4>>, <<0, 2, 4>>, <<4, 6>>, <<0, 1, 2, 3, 4>>, <<-4, 0, 4, 8>>, <<-3, -1, 1, 3, 5, 7>>, <<1000000, 1000002, 1000004>>}
 FnsSmall   == {"lin", "step"}
 FnsSim     == {"lin", "step", "tri", "sstep"}
 ScalesAll  == {2, -1}
@@ -12,6 +12,8 @@ GainsAll   == {1, 2, -1}
 BuffersSmall == {None, 0, 2}
 BuffersSim == {None, 0, 1, 2, 3, 5}
 GridsOne == {<<0, 2, 4, 6>>}
+GridsEdge == {<<0, 2, 4, 6>>, <<0, 2, 4>>, <<4, 6>>, <<2, 4, 6>>, <<2, 4>>}     \* windows sharing one edge with <<0, 2, 4, 6>>
+NoInts == {}
 BuffersAlias == {None, 2, 4}
 LevelBound == TLCGet("level") <= 5
 LevelBoundG == TLCGet("level") <= 4
